@@ -487,16 +487,21 @@ def evaluate__max_min_functions(self: XPathFunction, context: ta.ContextType = N
         elif any(isinstance(x, str) for x in values):
             if any(isinstance(x, ArithmeticProxy) for x in values):
                 raise self.error('FORG0006', "cannot compare strings with numeric data")
+        elif any(isinstance(x, bool) for x in values):
+            if not all(isinstance(x, bool) for x in values):
+                raise self.error('FORG0006', "cannot compare booleans with other types")
         elif all(isinstance(x, (Decimal, int)) for x in values):
             return aggregate_func(
                 cast(list[str], values)
             )
-        elif any(isinstance(x, float) and math.isnan(x) for x in values):
-            return float_class('NaN')
         elif all(isinstance(x, (int, float, Decimal)) for x in values):
+            if any(isinstance(x, float) and math.isnan(x) for x in values):
+                return float_class('NaN')
             return float_class(
                 aggregate_func(cast(list[NumericType], values))
             )
+        elif any(isinstance(x, (int, float, Decimal)) for x in values):
+            raise self.error('FORG0006', "cannot compare numeric data with other types")
         return aggregate_func(values)  # type: ignore[type-var]
 
     values: list[AtomicType] = []
